@@ -39,7 +39,9 @@ func c11cli(c *h.Ctx) {
 		real, _ := filepath.EvalSymlinks(dir)
 		long := strings.Repeat("0123456789abcdef", 330) // more than any internal buffer holds
 		content := []string{"single line\n", "two\nlines\n", "no trailing newline", "", "unicode żółć ✓\n", "with {{ braces }} inside\n",
-			"short\n" + long[:2000] + "\x1b[31m" + long[2000:] + "\x1b[0m tail\nlast\n", long + long + "\n"}[r.Intn(8)]
+			"short\n" + long[:2000] + "\x1b[31m" + long[2000:] + "\x1b[0m tail\nlast\n", long + long + "\n",
+			// output that happens to be valid template syntax over known names, literals, comments
+			"{{ .Root }}\n", "x {{ \"quoted\" }} y\n", "{{/* a comment */}}kept\n", "{{ .Args }}|{{ .TempDir }}\n"}[r.Intn(12)]
 		h.WriteFile(real+"/content", content)
 		exportAs := ""
 		if r.Chance(35) {
@@ -68,6 +70,10 @@ func c11cli(c *h.Ctx) {
 		if hooks {
 			prod.Set("before", []interface{}{"echo preparing", "echo still-preparing 1>&2"})
 			prod.Set("after", []interface{}{"echo cleaning-up"})
+		}
+		if r.Chance(25) {
+			// an interactive producer (it may read the terminal; what it writes is still its output)
+			prod.Set("interactive", true)
 		}
 		ctxHooks := r.Chance(25)
 		if ctxHooks {
